@@ -1,8 +1,8 @@
 /-!
 # Core/Cache — model for C10 (determinism, independence of earlier checks)
 
-State of the code modelled: /repo after a944eb3, 24b231d, da6a3f3, 5fee81d, e01ac16 (five of the
-seven C10 repairs); `definition-node-order` and `protocol-cache-assumptions` are not applied.
+State of the code modelled: /repo after a944eb3, 24b231d, da6a3f3, 5fee81d, e01ac16, 99947e4,
+c06bd97 (seven C10 repairs); `definition-node-order` and `protocol-cache-assumptions` are not applied.
 
 **Model A — order.** Every place in the anchored files where a `set` is iterated on the way to a
 diagnostic text or to a `Value` is a function of the *iteration order* of that set (`order`, a list:
@@ -40,7 +40,7 @@ scan, `Generated/SetSites.lean`) fall into a few kinds; each kind is one functio
 * `closureRun`                          worklist `while pending: x = pending.pop(); …`
                                         (checker.py `_get_recursive_typeshed_bases`,
                                         stacked_scopes.py `FunctionScope._resolve_origin`)
-* `old…` (end of part A)                the five repaired sites as they were (regression documentation)
+* `old…` (end of part A)                the seven repaired sites as they were (regression documentation)
 
 **Model B — history.** Memo tables as explicit state (`memoStep`: checker.py `make_type_object`,
 arg_spec.py `_cached_get_argspec`, `_get_generic_bases_cached`, annotations.py `get_type_alias`)
@@ -207,6 +207,17 @@ set order (`order`), are flattened, constrained member by member (`keep`) and un
 def siteDefNodes (keep : Nat → Bool) (order : List (List Nat)) : List Nat :=
   dedup ((order.flatMap id).filter keep)
 
+/-- name_check_visitor.py `_constraint_from_compare_op` (`x in <set literal>`) after c06bd97: a set
+payload is `sorted(other_val, key=lambda val: (type(val).__name__, repr(val)))` before `InPredicate`
+builds `unite_values(*[KnownValue(v) for v in pattern_vals if …])`; a `str` variable is narrowed to
+`Literal[…]` listing the members sorted (`order` = the iteration order of the set object; for `str`
+members of identifier shape the key order is the string order). -/
+def siteInSet (order : List String) : String := "Literal[" ++ joinRepr (isortBy strLe order) ++ "]"
+
+/-- value.py `TypedValue.__str__` after 99947e4: `stringify_object(self.typ)`; the per-instance
+`_type_object` (`cached`: filled in by an earlier `can_assign`) is not consulted. -/
+def siteTypedValueStr (_cached : Bool) (base : String) (_members : List String) : String := base
+
 /-- value.py `intersect_bounds_maps`, per type variable: `[OrBound(tuple(S))] if len(S) > 1 else
 next(iter(S))`; an `OrBound` is modelled as the list of its alternatives. -/
 def siteOrBound (order : List (List Nat)) : List (List (List Nat)) :=
@@ -256,6 +267,13 @@ def oldProtocolStr (base : String) (order : List String) : String :=
 def oldProtocolFirstFail (other : String) (outcome : String → MemberOutcome) (order : List String) :
     Option String :=
   order.findSome? fun m => failText other m (outcome m)
+
+/-- predicates.py / name_check_visitor.py before c06bd97: the members in set order. -/
+def oldInSet (order : List String) : String := "Literal[" ++ joinRepr order ++ "]"
+
+/-- value.py before 99947e4: `TypedValue.__str__` printed the cached TypeObject if there was one. -/
+def oldTypedValueStr (cached : Bool) (base : String) (members : List String) : String :=
+  if cached then siteProtocolStr base true members else base
 
 /-- stacked_scopes.py before 5fee81d: `list(set(constraints))`. -/
 def oldOrNarrow (sub : Nat → Nat → Bool) (vals : List Member) (order : List Nat) : List Member :=
@@ -460,5 +478,59 @@ def answerAfter2 (W : World) (modeKey argKey topOnly : Bool) (fuel : Nat) (h : L
     (q : Query) : Ans :=
   let st := h.foldl (fun s q => (check2 W modeKey argKey topOnly q.ex fuel s q.p q.a q.v).2) {}
   (check2 W modeKey argKey topOnly q.ex fuel st q.p q.a q.v).1
+
+/-! ## Model B — process-level state
+
+Some caches outlive every `Checker`: module-level singletons such as `stacked_scopes._empty_constrained`
+(its `resolution_cache` is shared by every `FunctionScope` of every check in the process), module-
+level dicts, `lru_cache`d functions. They memoise a computation on *objects* (AST nodes, runtime
+objects). An object has an address and a content; addresses are reused once an object is freed, so
+two different objects of a history can have the same address. A table keyed by `key o` is a
+`memoStep` table; what it may be keyed by is the question. -/
+
+/-- An object of the process: its address (`id(o)`) and what the memoised computation reads. -/
+structure Obj where
+  addr : Nat
+  content : Nat
+  deriving DecidableEq, Repr, Inhabited
+
+/-- One lookup in a process-level memo table for the pure computation `g` of the content. -/
+def procStep (key : Obj → Nat) (g : Nat → Nat) (proc : List (Nat × Nat)) (o : Obj) :
+    Option Nat × List (Nat × Nat) :=
+  let r := memoStep key (fun _ => true) (fun o => some (g o.content)) (fun _ => none) proc o
+  (r.1, r.2.1)
+
+/-- What happens in one process: protocol queries, a new `Checker` (per-Checker state starts empty,
+process-level state stays), lookups in the process-level table. -/
+inductive Event
+  | query (q : Query)
+  | newChecker
+  | resolve (o : Obj)
+  deriving DecidableEq, Repr, Inhabited
+
+/-- The state of the process: the current Checker's state and the process-level table. -/
+structure PSt where
+  chk : St := {}
+  proc : List (Nat × Nat) := []
+  deriving Repr, Inhabited
+
+/-- What an event returns. -/
+inductive Out
+  | ans (a : Ans)
+  | val (v : Option Nat)
+  | unit
+  deriving DecidableEq, Repr, Inhabited
+
+def stepE (W : World) (fuel : Nat) (key : Obj → Nat) (g : Nat → Nat) (s : PSt) : Event → Out × PSt
+  | .query q => let r := check W q.ex fuel s.chk q.p q.a q.v; (.ans r.1, { s with chk := r.2 })
+  | .newChecker => (.unit, { s with chk := {} })
+  | .resolve o => let r := procStep key g s.proc o; (.val r.1, { s with proc := r.2 })
+
+def runE (W : World) (fuel : Nat) (key : Obj → Nat) (g : Nat → Nat) (s : PSt) (h : List Event) : PSt :=
+  h.foldl (fun s e => (stepE W fuel key g s e).2) s
+
+/-- What `e` returns after the history `h` of one process. -/
+def outAfter (W : World) (fuel : Nat) (key : Obj → Nat) (g : Nat → Nat) (h : List Event) (e : Event) : Out :=
+  (stepE W fuel key g (runE W fuel key g {} h) e).1
 
 end Pya.C10
